@@ -148,6 +148,12 @@ fn main() {
         let c = gen_alias_capture(&mut ctx.rng, i);
         jobs.push(Job { src: c.src, class: c.class, ty: Ty::Nest, expected: c.expected, model: None, alias_model: c.model });
     }
+    // every constructor at every nesting position (container kinds x heap kinds, depth <= 3)
+    for c in nested_grid(&mut ctx.rng, n / 8, false) {
+        let (alias_model, _) = match c.model { Some((m, _)) => (Some(m), true), None => (None, true) };
+        jobs.push(Job { src: c.src, class: "nested-grid", ty: Ty::Nest, expected: c.expected, model: None, alias_model });
+        ctx.count(&format!("grid:{}", c.class));
+    }
     // histories: several copies (self-reads, spawns) on one thread with recurring source objects
     for _ in 0..n / 4 {
         let c = gen_history(&mut ctx.rng);
@@ -169,7 +175,7 @@ fn main() {
         if j.alias_model.is_none() {
             ctx.count(&format!("type:{:?}", j.ty));
         }
-        let prog = || j.src.replace(DECLS, "").replace(ALIAS_DECLS, "").replace('\n', "\\n");
+        let prog = || j.src.replace(DECLS, "").replace(ALIAS_DECLS, "").replace(NEST_HELPERS, "").replace('\n', "\\n");
         let runs: Vec<(u32, Outcome, String, String)> = match r {
             ChildResult::Runs(x) => x
                 .into_iter()
